@@ -25,10 +25,18 @@ import (
 type rshape struct {
 	kind int // index into kinds: the handler that panics on original events
 	two  bool
+	// late: no republishing; instead the panic handler is installed (1) or replaced (2) with
+	// SetPanicHandler AFTER the publishes have returned and while the delivery that will
+	// panic is still queued behind a blocked invocation of an Async+Sequential handler. The
+	// setter has returned when the panic happens: the handler it set is the one called
+	late int
 }
 
 func (s rshape) name() string {
 	n := "panic handler republishes to the handler that panicked/" + kinds[s.kind].name
+	if s.late > 0 {
+		n = []string{"", "panic handler installed", "panic handler replaced"}[s.late] + " while the delivery that panics is still queued"
+	}
 	if s.two {
 		n += "/two-publishers"
 	}
@@ -41,8 +49,37 @@ type rinst struct {
 	status string
 }
 
+func (in *rinst) bodyLate() {
+	A := bp.Types[0]
+	var opts []eventbus.Option
+	if in.s.late == 2 {
+		opts = append(opts, eventbus.WithPanicHandler(func(ev any, ht reflect.Type, val any) { in.rec.Add("old-handler", 0, 0, "") }))
+	}
+	bus := eventbus.New(opts...)
+	gate := make(chan struct{})
+	A.SubCustom(bus, func(_ context.Context, id int) {
+		in.rec.Add("enter", 0, id, "")
+		if id == 1 {
+			vrt.Recv(gate)
+			return
+		}
+		panic("boom")
+	}, nil, evt.SubOpts{Async: true, Sequential: true})
+	A.Pub(bus, 1)
+	A.Pub(bus, 2)
+	bus.SetPanicHandler(func(ev any, ht reflect.Type, val any) { in.rec.Add("new-handler", 0, 0, "") })
+	in.rec.Add("set-returned", 0, 0, "")
+	vrt.Close(gate)
+	vrt.Join()
+	bus.Wait()
+}
+
 func (in *rinst) Body() {
 	evt.Deliver = func(ti, slot, id int, ctx context.Context) {}
+	if in.s.late > 0 {
+		in.bodyLate()
+		return
+	}
 	A := bp.Types[0]
 	var bus *eventbus.EventBus
 	bus = eventbus.New(eventbus.WithPanicHandler(func(ev any, ht reflect.Type, val any) {
@@ -102,6 +139,12 @@ func (in *rinst) Check(res *vrt.Result) []vrt.Violation {
 		return vs
 	}
 	evs := in.rec.Events()
+	if in.s.late > 0 {
+		if n, o := h.Count(evs, "new-handler", 0, 0), h.Count(evs, "old-handler", 0, 0); n != 1 || o != 0 {
+			vs = append(vs, vrt.Violation{Kind: "panic-report", Sig: name + ": the panic handler set with SetPanicHandler before the panic happened was called " + fmt.Sprint(n) + " times, the one it replaced " + fmt.Sprint(o) + " times (want 1 and 0)", Detail: "log: " + in.rec.String()})
+		}
+		return vs
+	}
 	once := kinds[in.s.kind].o.Once
 	for _, id := range []int{1, 2} {
 		wantP := 1
@@ -154,6 +197,7 @@ func rshapes() []rshape {
 	for k := range kinds {
 		l = append(l, rshape{kind: k}, rshape{kind: k, two: true})
 	}
+	l = append(l, rshape{late: 1}, rshape{late: 2})
 	return l
 }
 
